@@ -737,8 +737,13 @@ pub fn configs(cli: &Cli) -> Vec<Cfg> {
     let thorough = cli.tier == Tier::Thorough;
     let mut v = vec![];
     let rounds = if thorough { 3 } else { 2 };
-    for batch in [1usize, 2, 3] {
+    // thorough: also one batch that spans the whole range
+    let batches: Vec<usize> = if thorough { vec![1, 2, 3, 7] } else { vec![1, 2, 3] };
+    for batch in batches {
         for buffer in [1usize, 2] {
+            if batch == 7 && buffer == 2 {
+                continue; // a single batch: the buffer size cannot matter
+            }
             for distinct_txs in [false, true] {
                 // committed 0, observed 6: heights 1..=6
                 v.push(Cfg { batch, buffer, init_committed: Some(0), tips: vec![6; rounds], distinct_txs, thorough_alphabet: thorough });
